@@ -699,7 +699,13 @@ pub fn to_text(log: u8, bh1: &[u8], bh2: &[u8]) -> String {
 /// Positions (index of the byte that caused it) where model B eliminated a level, and
 /// positions of piece boundaries at level >= `min_level`.
 pub fn interesting_positions(data: &[u8], min_level: u8) -> (Vec<usize>, Vec<usize>) {
+    interesting_positions_after_zeros(0, data, min_level)
+}
+
+/// the same after a run of `z` zero bytes
+pub fn interesting_positions_after_zeros(z: u64, data: &[u8], min_level: u8) -> (Vec<usize>, Vec<usize>) {
     let mut m = ModelB::new();
+    m.feed_zeros(z);
     let mut elim = Vec::new();
     let mut bounds = Vec::new();
     let mut last = 0usize;
